@@ -421,7 +421,7 @@ def extra(tier, seed):
         "nontrivial": [f"enum-{i}" for i in range(nt)],
         "violations": viols,
         "samples": samples,
-        "coverage": {"exhaustive": True, "enumerated_end_to_end": ev, "enumerated_function_level": fcount, "enumeration_bounds": f"N<= {max_n}, <=2 elements end-to-end; <=3 elements function level (N<=3), <=2 (N<=5)", "function_level_note": note},
+        "coverage": {"exhaustive": False, "bounded_slices_enumerated_completely": True, "enumerated_end_to_end": ev, "enumerated_function_level": fcount, "enumeration_bounds": f"N<= {max_n}, <=2 elements end-to-end; <=3 elements function level (N<=3), <=2 (N<=5)", "function_level_note": note},
     }
 
 
